@@ -739,7 +739,7 @@ def term_s(t, depth=0):
     if k == "downcast":
         return "(%s as %s)" % (term_s(t[1], d), t[2])
     if k == "call":
-        return "%s(%s)@bb%s" % (t[1], ", ".join(term_s(a, d) for a in t[2]), t[3])
+        return "%s(%s)%s" % (t[1], ", ".join(term_s(a, d) for a in t[2]), "@bb%s" % t[3] if len(t) > 3 else "")
     if k == "bin":
         return "%s(%s, %s)" % (t[1], term_s(t[2], d), term_s(t[3], d))
     if k == "un":
